@@ -430,7 +430,6 @@ Proof.
   - pose proof En as Hn. apply next_matching_some in Hn. destruct Hn as (Hin & Hg & Hm & Hle).
     destruct Hag as [Eh Hloc]. pose proof (Hloc h Hg) as Lh.
     pose proof (collect_result_local max m h take r r0 Lh Hin) as Eres.
-    assert (Enr : next_matching r m None = next_matching r m None) by reflexivity.
     destruct (next_returns_collection r0 max m prev take h Hmax En) as (_ & l & Hl & Hne & _ & Hall).
     rewrite Hl in Eres.
     pose proof (collect_frame_other r max m h take) as Hframe.
@@ -478,3 +477,10 @@ Proof.
   intros Hmax Hfuel. cbv zeta. apply (walk_spec r max m take Hmax fuel r prev (agree_refl prev r)).
   pose proof (above_le_length prev r). lia.
 Qed.
+
+(* the scenario of the fixed defect (66e7dc1): three instances, the middle one fully read,
+   NOT_READ mask: the walk must skip instance 2 *)
+Definition ops_three : list op :=
+  [OpAdd 1 1 KAlive (Some 1) 100 10; OpAdd 1 2 KAlive (Some 2) 101 20; OpAdd 1 3 KAlive (Some 3) 102 30;
+   OpAdd 1 2 KAlive (Some 4) 103 40; OpRead (-1) all_masks (Some 2)].
+Definition not_read_mask : masks := mkM false true true true true true true.
